@@ -16,20 +16,24 @@ only create histories through the public API:
                    DIFFERENT tolerances given by keyword
   second-setting   two more Settings.set_atol windows on the same object
   via-copy / after-set_zero / after-setter
-                   copy() (or the object the constructor returned with
-                   physicality required): asked, set_zero(), asked again, its
-                   copy asked; set_mode_proj_order / eps_truncate_imaginary_part /
+                   copy(): asked, set_zero(), asked again, its copy asked;
+                   set_mode_proj_order / eps_truncate_imaginary_part /
                    MProcess.set_mode_sampling between two queries of one object
-  via-generate_from_var / via-arithmetic / via-pickle / derived-object
-                   objects returned by earlier library calls, origin / zero
-                   objects of copies, of zeroed objects and of one another
+  ctor-required-object
+                   the same with the object the constructor returned when
+                   physicality was required (instead of a copy)
+  via-generate_from_var / via-arithmetic / via-pickle
+                   objects returned by earlier library calls; origin / zero
+                   objects of copies, of zeroed objects, of partners and of one
+                   another (first-pass oracles, keys carry the enclosing step)
   sibling-system   a second composite system of the same dimensions and another
                    basis lives in the same process; a partner object on it,
                    built with NON-DEFAULT constructor options, is asked
                    interleaved with the case's object; constructor with
                    physicality required and those options
-  re-used-object   two veteran objects (fixed data) live for the whole shard and
-                   are asked in every case, also inside the Settings windows
+  re-used-object   two veteran objects (built from the shard-level stream) live for
+                   the whole shard; one is asked in every case, also inside the
+                   Settings windows and after the table deletion
   tables-deleted   the documented CompositeSystem.delete_* calls, then verdicts
   caller-array-reused
                    the module-level verdict functions (gate.is_tp / gate.is_cp,
@@ -98,13 +102,8 @@ def shards(tier, seed):
 
 
 def _dg(arrs):
-    """content digest of raw parameter arrays (harness memo key: content, never identity)"""
-    h = hashlib.blake2b(digest_size=12)
-    for a in arrs:
-        a = np.ascontiguousarray(a)
-        h.update(f"{a.dtype}{a.shape}".encode())
-        h.update(a.tobytes())
-    return h.digest()
+    """content key of raw parameter arrays (harness memo key: content, never identity)"""
+    return (tuple((a.dtype.char, a.shape) for a in arrs), hashlib.blake2b(b"".join([a.tobytes() for a in arrs]), digest_size=16).digest())
 
 
 def _tp_sizes(B, hs, d):
@@ -473,7 +472,10 @@ BKINDS = {"State": ["random", "pure", "rankdef", "mixed"], "Povm": ["random", "p
 
 # ---------------------------------------------------------------- history / combination steps
 
-SIBLING = {"std": "nggm", "nggm": "std", "unnorm": "std", "rot": "nherm", "nherm": "rot"}
+# sibling composite system of a shard: same dimensions, another basis; the pairs cover identity-first -> not,
+# not -> identity-first, and two different bases of the same class (MProcess needs identity-first orthonormal bases)
+SIBLING = {"std": "nherm", "nggm": "std", "unnorm": "std", "rot": "nggm", "nherm": "rot"}
+SIBLING_MPROCESS = {"std": "nggm", "nggm": "std"}
 
 # public methods that must not change what an object denotes (called between two queries of the same object)
 OTHER_CALLS = {
@@ -523,7 +525,9 @@ class History:
         self.c_sys, self.default_atol = c_sys, default_atol
         self.d = c_sys.dim
         self.big = shape in ("S2", "S23") and t in ("Gate", "MProcess")
-        self.sib_kind = SIBLING[bk]
+        # generic-basis TP verdict on qubit x qutrit: 0.1 s per call
+        self.slow = shape == "S23" and t == "Gate" and not bool(c_sys.is_orthonormal_hermitian_0thprop_identity)
+        self.sib_kind = (SIBLING_MPROCESS if t == "MProcess" else SIBLING)[bk]
         self.sib = gen.make_csys(gen.SHAPES[shape], kind=self.sib_kind)
         J.cp_flag[id(c_sys)] = (c_sys, bk != "unnorm")
         J.cp_flag[id(self.sib)] = (self.sib, self.sib_kind != "unnorm")
@@ -539,7 +543,7 @@ class History:
         for bkind, viol, delta in ((BKINDS[t][1], "none", 0.0), ("random", "both", 3e-7)):
             built = self.build(rv, c_sys, 3, bkind, viol, delta, {})
             if built is not None:
-                self.veterans.append(built[0])
+                self.veterans.append(built)
 
     def step(self, name):
         return _Step(self.J, name)
@@ -574,8 +578,11 @@ class History:
             return None
         return o, ops, raw
 
-    def draw(self, rng, cs, m, opts):
-        bkind = str(rng.choice(BKINDS[self.t]))
+    def draw(self, rng, cs, m, opts, exact_m=False):
+        kinds = BKINDS[self.t]
+        if exact_m and self.t == "Povm" and m < self.d:
+            kinds = [k for k in kinds if k != "rank1"]  # rank1 has max(m, d) elements; sums need equal numbers
+        bkind = str(rng.choice(kinds))
         viol = str(rng.choice(["none", "none", "eq", "ineq", "both"]))
         delta = pick_delta(rng, float(rng.choice(ATOLS))) if viol != "none" else 0.0
         return self.build(rng, cs, m, bkind, viol, delta, opts)
@@ -704,14 +711,14 @@ class History:
     # ------------------------------------------------------------ one case
     def run(self, i, obj, ops, a_first, req_obj):
         """history steps of one case. Cost control: the re-query, one veteran and the caller-array step run in every
-        case, the other steps in one case of three (groups A / B / C by case index); on the two-subsystem gate /
-        measurement-process shards (12 cases, a generic-basis TP verdict costs 0.1 s) every step asks one verdict
-        only ('lean')."""
+        case, the other steps in one case of four (groups A-D by case index); on the two-subsystem gate /
+        measurement-process shards (12 cases; a generic-basis TP verdict costs 0.1 s there) every step asks one
+        verdict only ('lean')."""
         from quara.settings import Settings
 
         ctx, J, t, Q = self.ctx, self.J, self.t, self.Q
         rng = ctx.rng(1)
-        grp = i % 3
+        grp = i % 4
         lean = self.big
         atols = [float(x) for x in rng.permutation(ATOLS)]
         m_obj = len(ops["ms"]) if t == "Povm" else (len(ops["fns"]) if t == "MProcess" else 0)
@@ -725,7 +732,7 @@ class History:
                 self.produce("other-call:" + name, fn, obj)
             seen_false = {"eq": False, "ineq": False}
             for n, a in enumerate(sorted(atols[:1 if lean else 2], reverse=True)):
-                got = self.ask(obj, a, atols[3], mode=5 if lean else (4 if n == 0 else 2))
+                got = self.ask(obj, a, atols[3], mode=5 if (lean or (n == 1 and i % 2)) else 2)
                 for nm in ("eq", "ineq"):
                     if got.get(nm) is None:
                         continue
@@ -735,10 +742,11 @@ class History:
                         seen_false[nm] = True
 
         # (c) a veteran of the shard, between the queries of this case's objects
-        V = self.veterans[i % len(self.veterans)] if self.veterans else None
-        if V is not None:
+        vet = self.veterans[(i // 2 if self.slow else i) % len(self.veterans)] if self.veterans else None
+        V = vet[0] if vet else None
+        if V is not None and not (self.slow and i % 2):
             with self.step("re-used-object"):
-                self.ask(V, atols[i % 5], atols[(i + 1) % 5], mode=(i // 2) % 2 if lean else i % 4)
+                self.ask(V, atols[i % 5], atols[(i + 1) % 5], mode=(i // 2) % 2 if lean else (i // 2) % 4)
 
         if grp == 0:
             # (a) two more windows of the global setting on the same object (and the veteran)
@@ -775,7 +783,7 @@ class History:
             if src is not None:
                 with self.step(name):
                     self.ask(src, atols[0], atols[1], mode=0)
-                    self.derived(src)
+                    self.derived(src, depth=0)
                 ok, _ = self.produce("set_zero", src.set_zero)
                 if ok:
                     with self.step("after-set_zero"):
@@ -785,7 +793,7 @@ class History:
                         ok, c2 = self.produce("copy", src.copy)
                         if ok:
                             self.ask(c2, atols[1], atols[0], mode=1)
-                        self.derived(src, depth=0)
+                        self.derived(src, depth=0 if lean else (i // 4) % 2)
 
         pm = None
         if grp == 2:
@@ -794,30 +802,30 @@ class History:
             if ok:
                 with self.step("via-generate_from_var"):
                     self.ask(g, atols[2], atols[0], mode=1)
-            pm = self.draw(rng, self.c_sys, m_obj, {})
+            pm = self.draw(rng, self.c_sys, m_obj, {}, exact_m=True)
             if pm is not None:
                 w = float(rng.uniform(0.2, 0.8))
                 ok, r = self.produce("arithmetic", lambda: obj * w + (1.0 - w) * pm[0])
                 with self.step("via-arithmetic"):
                     if not lean:
-                        self.ask(pm[0], atols[3], atols[1], mode=2)
+                        self.ask(pm[0], atols[3], atols[1], mode=0)
                     if ok:
-                        self.ask(r, atols[3], atols[1], mode=0)
+                        self.ask(r, atols[3], atols[1], mode=5 if not lean else 0)
                         if not lean:
-                            self.ask(obj, atols[3], atols[1], mode=3)
-            if self.d == 2 or (self.d == 3 and (t in ("State", "Povm") or i % 4 == 2)):
+                            self.ask(obj, atols[3], atols[1], mode=1)
+            if self.d == 2 or (self.d == 3 and (t in ("State", "Povm") or i % 8 == 2)):
                 ok, pk = self.produce("pickle", lambda: pickle.loads(pickle.dumps(obj)))
                 if ok:
                     pcs = pk.composite_system
                     J.cp_flag[id(pcs)] = (pcs, J.cp_judged(self.c_sys))
                     with self.step("via-pickle"):
-                        self.ask(pk, atols[4], atols[2], mode=4)
+                        self.ask(pk, atols[4], atols[2], mode=5)
                     J.cp_flag.pop(id(pcs), None)
 
         # (c)+(d) partner with non-default constructor options on the sibling composite system (same dimensions,
         #     other basis), asked interleaved with this case's object; constructor with physicality required
         ps = None
-        if grp == 0 or (grp == 2 and not lean):
+        if grp == 3:
             m2 = int(rng.integers(2, 6)) if t in ("Povm", "MProcess") else 0
             opts = self.options(rng, m2)
             with self.step("sibling-system"):
@@ -828,8 +836,8 @@ class History:
                         self.ask(ps[0], a, atols[2], mode=2)
                         self.ask(obj, a, a, mode=0)
                     self.ask(ps[0], a, atols[2], mode=1)
-                    if grp == 2:
-                        self.derived(ps[0], depth=0)
+                    if not lean:
+                        self.derived(ps[0], depth=(i // 4) % 2)
                     b = atols[3]
                     try:
                         Settings.set_atol(b)
@@ -841,11 +849,11 @@ class History:
                         Settings.set_atol(self.default_atol)
 
         # documented table deletion on the composite systems, then the same objects again
-        every = {"S1": 4, "S3": 8}.get(self.shape, 0) if t in ("Gate", "MProcess") else 3
-        if (every and i % every == 2) or (not every and i == 2 and (self.shape == "S2" or ctx.tier == "thorough")):
+        every = {"S1": 4, "S3": 8}.get(self.shape, 0) if t in ("Gate", "MProcess") else 4
+        if (every and i % every == 3) or (not every and i == 3 and (self.shape == "S2" or ctx.tier == "thorough")):
             with self.step("tables-deleted"):
                 self.delete_tables(self.c_sys)
-                self.ask(obj, atols[0], atols[2], mode=3)
+                self.ask(obj, atols[0], atols[2], mode=0 if lean else 3)
                 if V is not None:
                     self.ask(V, atols[1], atols[1], mode=0)
                 if ps is not None and not self.big:
@@ -857,12 +865,15 @@ class History:
             jobs = [(self.c_sys, obj, ops)] + ([(self.c_sys, pm[0], pm[1])] if pm else []) + ([(self.sib, ps[0], ps[1])] if ps else [])
             if lean:
                 jobs = jobs[-1:]
+            if len(jobs) == 1 and vet is not None:
+                jobs.append((self.c_sys, vet[0], vet[1]))  # at least two contents per case (a replayed case shows it too)
+            a = atols[2]  # one tolerance per case: only the array's contents change between the calls
             for k, (cs, o, oo) in enumerate(jobs):
-                a = atols[(k + 2) % 5]
                 if t in ("Gate", "MProcess"):
                     np.copyto(self.buf_hs, o.hs if t == "Gate" else o.hss[(i + k) % len(o.hss)])
                     self.call_fn("gate.is_cp", Q.gate_mod.is_cp, cs, self.buf_hs, atol=a)
-                    self.call_fn("gate.is_tp", Q.gate_mod.is_tp, cs, self.buf_hs, a)
+                    if not (self.slow and (i + k) % 2 == 0):
+                        self.call_fn("gate.is_tp", Q.gate_mod.is_tp, cs, self.buf_hs, a)
                 else:
                     mats = [oo["rho"]] if t == "State" else oo["ms"]
                     np.copyto(self.buf_m, mats[(i + k) % len(mats)])
